@@ -418,7 +418,7 @@ pub fn check_input(f: &Fmt, input: &[u8], prop: &str, rep: &mut Report) {
             }
         }
     }
-    if all || prop == "C04" {
+    if all || prop == "C04" || prop == "C05" {
         let mut ks: Vec<usize> = (0..=input.len()).collect();
         if input.len() > 48 {
             // long documents: every offset near the start and the end, every third one in between
@@ -429,6 +429,12 @@ pub fn check_input(f: &Fmt, input: &[u8], prop: &str, rep: &mut Report) {
                 let s = Sched { chunk, mode, fail_at: Some((k, (k + n) % KINDS.len())), interrupt: 0 };
                 let o = run(f, input, s);
                 rep.runs += 1;
+                if prop == "C05" {
+                    if let End::Panic(m) = &o.end {
+                        fail!("C05 no panic", s, m.clone());
+                    }
+                    continue;
+                }
                 match &o.end {
                     End::Io => {}
                     End::Clean => fail!("C04 a failing source never gives a clean end", s, format!("items {:?}", o.items)),
